@@ -54,10 +54,13 @@ LoadVector == phase = "rhs" /\ (IF HasU0(cfg.problem) THEN See("solve", "rhs") E
 Solve == phase = "solve" /\ phase' = "after_solve" /\ have' = have \cup {"Phi"} /\ obs' = Append(obs, "solve") /\ UNCHANGED <<cfg, k, err, meshobj>>
 HH2 == phase = "after_solve" /\ (IF cfg.hh2 THEN See("hh2", "hh2") ELSE Goto("hier?"))
 HH2Done == phase = "hh2" /\ Goto("hier?")
+\* the hierarchical estimator is read from its file whenever that exists (left by an earlier run in this directory:
+\* Sessions.tla), whatever the flag says; otherwise it is computed if switched on
 Hier ==
   /\ phase = "hier?"
-  /\ phase' = "residual" /\ have' = (IF cfg.hier THEN have \cup {"hierarch"} ELSE have)
-  /\ obs' = (IF cfg.hier THEN Append(obs, "hier") ELSE obs) /\ UNCHANGED <<cfg, k, err, meshobj>>
+  /\ phase' = "residual" /\ UNCHANGED <<cfg, k, err, meshobj>>
+  /\ \/ have' = have \cup {"hierarch"} /\ obs' = Append(obs, "hier-loaded")
+     \/ have' = (IF cfg.hier THEN have \cup {"hierarch"} ELSE have) /\ obs' = (IF cfg.hier THEN Append(obs, "hier") ELSE obs)
 \* the residual closure is built here: C03's contract is evaluated on it
 Residual == phase = "residual" /\ "Phi" \in have /\ phase' = "l2?" /\ have' = have \cup {"residual"}
             /\ obs' = Append(obs, "residual") /\ UNCHANGED <<cfg, k, err, meshobj>>
@@ -114,12 +117,13 @@ AnyFlagsRun == Accepted(cfg.problem, cfg.domain) => err = "none"
 
 \* the observable steps of one complete iteration are a function of the configuration alone
 Opt(b, e) == IF b THEN <<e>> ELSE <<>>
-ExpectedIter(c) ==
-  <<"assemble">> \o Opt(HasU0(c.problem), "rhs") \o <<"solve">> \o Opt(c.hh2, "hh2") \o Opt(c.hier, "hier") \o <<"residual">>
+ExpectedIterF(c, file) ==
+  <<"assemble">> \o Opt(HasU0(c.problem), "rhs") \o <<"solve">> \o Opt(c.hh2, "hh2") \o Opt(file, "hier-loaded") \o Opt(c.hier /\ ~file, "hier") \o <<"residual">>
   \o Opt(c.l2, "l2") \o Opt(c.sobolev, "sobolev") \o <<"refine">> \o Opt(c.grading /\ c.refinement # "uniform", "grade")
-ProtocolFixed == phase = "next" => obs = ExpectedIter(cfg)
+ExpectedIter(c) == ExpectedIterF(c, FALSE)
+ProtocolFixed == phase = "next" => \E file \in BOOLEAN : obs = ExpectedIterF(cfg, file)
 IsPrefixOf(a, b) == Len(a) <= Len(b) /\ \A i \in 1..Len(a) : a[i] = b[i]
-ProtocolPrefix == err = "none" => IsPrefixOf(obs, ExpectedIter(cfg))
+ProtocolPrefix == err = "none" => \E file \in BOOLEAN : IsPrefixOf(obs, ExpectedIterF(cfg, file))
 \* (diagnostic; expected to be violated) the operators always hold the mesh object the loop iterates over
 OperatorsSeeLoopMesh == meshobj = 0
 
